@@ -11,6 +11,7 @@ import (
 	"runtime"
 	"strings"
 	"sync"
+	"sync/atomic"
 
 	"github.com/bio-routing/bio-rd/util/dijkstra"
 
@@ -64,6 +65,8 @@ var names = func() []dijkstra.Node {
 	return out
 }()
 
+var panics atomic.Int64
+
 type result struct {
 	nontrivial  bool
 	unreachable int
@@ -82,8 +85,11 @@ func check(c gcase, viol func(clause string, f map[string]string, detail string)
 	hasUnreach := nUnreach > 0
 	defer func() {
 		if p := recover(); p != nil {
-			buf := make([]byte, 1500)
-			buf = buf[:runtime.Stack(buf, false)]
+			var buf []byte
+			if panics.Add(1) <= 64 { // stacks are expensive; the first few identify the site
+				buf = make([]byte, 1500)
+				buf = buf[:runtime.Stack(buf, false)]
+			}
 			viol("panic", vf.F("unreachable_node", hasUnreach), fmt.Sprintf("SPT(%s) panicked: %v (nodes=%d edges=%v; %d node(s) unreachable)\n%s", names[c.Src].Name, p, c.N, c.Edges, nUnreach, buf))
 		}
 	}()
